@@ -490,6 +490,12 @@ func (q *Query) text(sliced bool, wantModel bool, forCvc5 bool) string {
 		}
 		d := byName[name]
 		if d == nil {
+			// constructors and selectors of struct datatypes
+			if strings.HasPrefix(name, "mk_S_") {
+				mark(name[3:])
+			} else if i := strings.Index(name, "__"); i > 0 && strings.HasPrefix(name, "S_") {
+				mark(name[:i])
+			}
 			return
 		}
 		need[name] = true
@@ -657,11 +663,13 @@ func Discharge(q *Query, timeoutMs int, seed int) SolverResult {
 		cleanupQueryFiles(base)
 		return r
 	}
-	// stage 2: sliced, all solvers
-	r = try(true, false, timeoutMs, solverDefs)
-	if r.Status == "unsat" {
-		cleanupQueryFiles(base)
-		return r
+	// stage 2: sliced, all solvers (skipped when the sliced query was refuted: more hypotheses are needed)
+	if r.Status != "sat" {
+		r = try(true, false, timeoutMs, solverDefs)
+		if r.Status == "unsat" {
+			cleanupQueryFiles(base)
+			return r
+		}
 	}
 	// stage 3: full query, all solvers
 	r = try(false, false, timeoutMs, solverDefs)
@@ -670,7 +678,12 @@ func Discharge(q *Query, timeoutMs int, seed int) SolverResult {
 		return r
 	}
 	// failed: try to get a model from the full query
-	m := try(false, true, timeoutMs, solverDefs[:2])
+	if r.Status != "sat" {
+		// nobody refuted it: no model to be had (quantified / recursive obligations answer unknown)
+		r.Raw = r.Raw + "\n; query file: " + base + ".smt2"
+		return r
+	}
+	m := try(false, true, timeoutMs, solverDefs[:1])
 	if m.Status == "sat" {
 		r.Status = "sat"
 		r.Model = m.Raw
